@@ -402,6 +402,8 @@ func c14(w *core.World, r *core.Report) {
 	ruleRebuildFromStoredSnapshot(w, r)
 	r.Rule("R17.4", "a mode migration repoints the namespace index before it retires the old entry: a stop in between must not leave the namespace unfindable (resume point back to 'none') (shared with C17)", 2)
 	ruleMigrationOrder(w, r)
+	r.Rule("R14.14", "a connection that a routine has left in whichever database it visited last (GetCheckpoint and the other walks over the databases of a stand-alone target) carries no database-dependent command before a database is selected on it again", 10)
+	ruleDatabaseAfterWalk(w, r)
 }
 
 func ruleSaveBeforeDelete(w *core.World, r *core.Report) {
